@@ -50,10 +50,11 @@ impl Code {
 				code_visitor.visit_max_stack_and_max_locals(max_stack, max_locals)?;
 			}
 
-			// TODO: interests.stack_map_table
-			//  also the question: should CodeInterests have a field for "instructions"?
+			// TODO: should CodeInterests have a field for "instructions"?
 			for instruction in self.instructions {
-				code_visitor.visit_instruction(instruction.label, instruction.frame, instruction.instruction)?;
+				// The byte reader only delivers frames if the StackMapTable attribute is of interest.
+				let frame = if interests.stack_map_table { instruction.frame } else { None };
+				code_visitor.visit_instruction(instruction.label, frame, instruction.instruction)?;
 			}
 			code_visitor.visit_exception_table(self.exception_table)?;
 			if let Some(last_label) = self.last_label {
